@@ -3,7 +3,7 @@
 // below it) or a descriptor opened there. It can list them, kill the program
 // right before the k-th of them, or make the k-th fail with a chosen errno.
 //
-//	ptrun -mode list|kill|fail -k N -errno E -dir DIR -out result.json [-stdout] -- prog args...
+//	ptrun -mode list|kill|fail|signal -k N -errno E -signal S -dir DIR -out result.json [-stdout] -- prog args...
 //
 // It is written for the C10 check (gxz never loses data) and follows all
 // threads of the traced Go program. linux/amd64 only.
@@ -74,6 +74,10 @@ type Result struct {
 	Signaled bool   `json:"signaled"`
 	Fired    bool   `json:"fired"`
 	Error    string `json:"error,omitempty"`
+	// Foreign lists removals / renames of absolute paths outside the scenario
+	// directory that the program attempted; the tracer does not let them
+	// happen (the call fails with EPERM).
+	Foreign []string `json:"foreign,omitempty"`
 }
 
 func readString(tid int, addr uint64) string {
@@ -98,7 +102,8 @@ func readString(tid int, addr uint64) string {
 }
 
 func main() {
-	mode := flag.String("mode", "list", "list | kill | fail")
+	mode := flag.String("mode", "list", "list | kill | fail | signal")
+	signo := flag.Int("signal", int(syscall.SIGINT), "signal sent to the process before system call k (mode signal)")
 	k := flag.Int("k", -1, "index of the system call to kill before / to fail")
 	errno := flag.Int("errno", int(syscall.EIO), "errno for mode fail")
 	dir := flag.String("dir", "", "scenario directory (working directory of the program)")
@@ -268,6 +273,13 @@ func main() {
 							res.Fired = true
 							killed = true
 							syscall.Kill(main, syscall.SIGKILL)
+						case "signal":
+							// the call itself proceeds; the signal is delivered to
+							// the process (the tracer passes it on at the
+							// signal-delivery stop)
+							res.Fired = true
+							killed = true
+							syscall.Kill(main, syscall.Signal(*signo))
 						case "fail":
 							regs.Orig_rax = ^uint64(0)
 							syscall.PtraceSetRegs(tid, &regs)
@@ -278,6 +290,26 @@ func main() {
 					}
 				} else {
 					delete(pendingCall, tid)
+					// never let the traced program remove or rename something
+					// outside the scenario directory (e.g. /dev/stdout)
+					foreign := ""
+					switch nr {
+					case sysUnlink, sysRmdir, sysUnlinkat:
+						if strings.HasPrefix(c.Path, "/") {
+							foreign = names[nr] + " " + c.Path
+						}
+					case sysRename, sysRenameat, sysRenameat2:
+						if strings.HasPrefix(c.Path, "/") || strings.HasPrefix(c.Path2, "/") {
+							foreign = names[nr] + " " + c.Path + " " + c.Path2
+						}
+					}
+					if foreign != "" {
+						res.Foreign = append(res.Foreign, foreign)
+						regs.Orig_rax = ^uint64(0)
+						syscall.PtraceSetRegs(tid, &regs)
+						v := -int64(syscall.EPERM)
+						pendingRet[tid] = &v
+					}
 				}
 			} else {
 				// syscall exit
